@@ -18,6 +18,10 @@ def check(ctx):
     rep.floor("timestamps rebuilt from components", nr, 1)
     nu = _tzr.check_utc_shortcut(ctx, rep)
     rep.floor("lookup-free UTC results in the Zinc reader", nu, 1)
+    from rules import hayson as _hk
+    _hk.check_nothing_dropped(ctx, rep, "encoding/zinc/encode.rs")
+    npk = escapes.check_parsed_elements_kept(ctx, rep)
+    rep.floor("stores of parsed elements in the Zinc collection readers", npk, 4)
     n1 = escapes.check_str(ctx, rep)
     n2 = escapes.check_uri(ctx, rep)
     n3 = escapes.check_raw_interpolations(ctx, rep)
